@@ -170,3 +170,11 @@ func vpVarIntRef(v int32) []byte {
 	return append([]byte{}, ref[:m]...)
 }
 
+
+func vpEqBytes(a, b []byte, label string) {
+	vp.Assert(len(a) == len(b), label)
+	for i := range a {
+		vp.Assert(a[i] == b[i], label)
+	}
+}
+
